@@ -1,4 +1,5 @@
-// Command corr is the correspondence harness: for one property it generates
+// Package hlib is the shared part of the correspondence harnesses (one command
+// per property under ../cmd/cNN): for one property a harness generates
 // cases from a single PRNG seed, runs the REAL model3d code in-process on each,
 // and writes one line per case:   <op line> \t <implementation output>
 // The op lines are piped to the Lean driver (the executable models the theorems
@@ -7,7 +8,7 @@
 // Lines beginning with '#' carry metadata: "#stat key value" (distribution of
 // what was generated) and "#propfail <id> <description>" (the property's own
 // predicate evaluated to false on the implementation's output for that case).
-package main
+package hlib
 
 import (
 	"bufio"
@@ -58,19 +59,13 @@ func Guard(f func() string) (res string) {
 	return f()
 }
 
-var registry = map[string]func(*Ctx){}
-
-func main() {
-	prop := flag.String("prop", "", "property id (C01..C20)")
+// Main is the body of every cmd/cNN: parse flags, run f, append the #stat lines.
+func Main(propID string, f func(*Ctx)) {
+	prop := flag.String("prop", propID, "property id (informational)")
 	seed := flag.Int64("seed", 1, "PRNG seed")
 	n := flag.Int("n", 200, "case budget")
 	outPath := flag.String("out", "", "output file")
 	flag.Parse()
-	f, ok := registry[strings.ToUpper(*prop)]
-	if !ok {
-		fmt.Fprintln(os.Stderr, "unknown property", *prop)
-		os.Exit(2)
-	}
 	w := os.Stdout
 	if *outPath != "" {
 		var err error
